@@ -100,6 +100,7 @@ typedef struct {
     m_evt_ps_t msg;
     m_ps_flags flags;
     ev_src_t *sub;
+    void *autofree;                         // ref'd holder of M_PS_AUTOFREE data, shared by all copies of a message
 } ps_priv_t;
 
 extern const char *src_names[];
